@@ -127,4 +127,65 @@ theorem envAgreeB_ext {p n : Nat} {g : List Nat} [Fact p.Prime] {h32 : p - 1 < 2
   bringOK := fun i => ⟨by rw [(hbring i).1, henv 0], fun gs hgs f hf t ht => (hbring i).2 gs hgs f hf t ht⟩
   bring' := fun _ => rfl
 
+/-- C18-T31 (`history_transparent_full_ext`).  ANY history without raw-data constructors over an
+    extension field `extOps p n g` with the facts of `C01.define_ext_lawful`, logarithm tables
+    on any field objects; the only hypothesis beyond those facts is the validity of `Ext.parse`
+    results (`hparse`). -/
+theorem history_transparent_full_ext {p n : Nat} {g : List Nat} [Fact p.Prime] {h32 : p - 1 < 2 ^ 32}
+    {K : Type} [Field K] (L : Lawful (extOps p n g) K) (hL : Assemble.FieldFacts L p n)
+    (hcanon : ∀ a, L.valid a → UPoly.Canon (primeOps p) a) (hq : p ^ n ≤ 2 ^ 63)
+    (M : ExtField.Modulus h32 n g) (hv : ∀ a, L.valid a ↔ ExtField.Valid h32 n a)
+    (hparse : ∀ str v, (extOps p n g).parse str = .ok v → L.valid v)
+    (tabs : Nat → Bool) (env : Env (UPoly Nat)) (henv : ∀ i, env.fld i = extOps p n g)
+    (hring : ∀ i, (env.uring i).F = extOps p n g ∧
+      ∀ m, (env.uring i).modulus = some m → ∀ c ∈ m, L.valid c)
+    (hbring : ∀ i, (env.bring i).F = extOps p n g ∧
+      ∀ gs, (env.bring i).ideal = some gs → ∀ f ∈ gs, ∀ t ∈ f, L.valid t.2)
+    (ops : List Op) (hops : ∀ op ∈ ops, noRaw op = true) {s : St (UPoly Nat)}
+    (hs : StoreOKAll (fun _ => L.valid) s) :
+    runOps { fld := fun i => extOpsT p n g (tabs i),
+             uring := fun i => { env.uring i with F := extOpsT p n g (tabs 0) },
+             bring := fun i => { env.bring i with F := extOpsT p n g (tabs 0) } }
+        (.ext p n g) s ops
+      = runOps env (.ext p n g) s ops :=
+  (history_transparent_all (envAgreeB_ext L hL hcanon hq M hv hparse tabs env henv hring hbring)
+    _ ops hops hs).1
+
+/-! ### non-vacuity: a GF(7) history with ideal operations -/
+
+/-- generators `3X² + 4Y`, `XY + 3` of an ideal of `F_7[X,Y]`; tables; `NewIdeal IsGroebner
+    GroebnerBasis Copy MinimizeBasis ReduceBasis IsReduced IsMinimal Quotient Generators`, arithmetic
+    with the generators of the reduced basis (`X + 5Y²`, `Y³ + 5`), observers, a bad line -/
+def ops7i : List Op := [.eCtor 0 0 "gen" "", .eCtor 1 0 "one" "", .eBin 2 "plus" 0 1,
+  .bCtor 0 0 "zero" "", .bSetCoef "set" 0 (2, 0) 0, .bSetCoef "inc" 0 (0, 1) 2,
+  .bCtor 1 0 "zero" "", .bSetCoef "set" 1 (1, 1) 1, .bSetCoef "dec" 1 (0, 0) 2,
+  .tables 0 true true none, .iNew 0 0 [0, 1], .iPred "groebner" 0, .iGroebner 1 0, .iCopy 2 1,
+  .iXform "minimize" 2, .iXform "reduce" 2, .iPred "reduced" 2, .iPred "minimal" 1, .iXform "quotient" 0,
+  .iGens [5, 6, 7] 2, .bBin 8 "times" 5 6, .bRem 9 8 [5, 6], .iObs 2, .iObs 0, .bObs 5, .bad "x"]
+
+/-- T30 applied: every operation of `ops7i` has `noRaw`, the empty store is valid -/
+example : runOps env7bT (.prime 7) {} ops7i = runOps env7b (.prime 7) {} ops7i :=
+  history_transparent_full_prime (by norm_num) (by norm_num) (fun _ => (true, true)) env7b
+    (fun _ => rfl) (fun i => ⟨rfl, fun m hm => by
+      simp only [env7b, env7] at hm
+      split at hm
+      · cases hm; decide
+      · cases hm⟩)
+    (fun i => ⟨rfl, fun gs hgs => by
+      simp only [env7b] at hgs
+      split at hgs
+      · cases hgs; decide
+      · cases hgs⟩) ops7i (by decide) (storeOKAll_empty _)
+
+/-- … and evaluated in both environments (the replies that list generator sets go through
+    `Array.qsort`, which the kernel does not evaluate; the others are compared: predicates, flags,
+    `Generators()` count, the product and remainder of the reduced basis, its first generator) -/
+example : let pick := fun (l : List String) =>
+      [11, 13, 14, 15, 16, 17, 18, 19, 20, 21, 24, 25].map (l.getD · "")
+    pick (runOps env7bT (.prime 7) {} ops7i).2 = pick (runOps env7b (.prime 7) {} ops7i).2 ∧
+    pick (runOps env7b (.prime 7) {} ops7i).2 = ["pred false", "ok flags=1,0,0", "ok", "ok",
+      "pred true", "pred false", "ok", "ok 2", "ok 0#1:3:1/1:0:5/0:5:5/0:2:4", "ok ",
+      "obs ld=1:0 lc=1 z=false m=false lt=1:0:1 s=X + 5Y^2", "bad-op"] := by
+  decide +kernel
+
 end Algobra.C18Tables
